@@ -296,6 +296,7 @@ def _run(scn, log: EventLog, stats: Stats):
                 bcols, brows = ordered_rows(base)
                 bcanon = canon_table(base)
                 log.emit(b, "baseline", {"upto": upto, "canon": bcanon})
+                stats.state({"step": st["t"] + _flavour(st), "canon": bcanon})
                 if n_rows >= 2:
                     stats.nontrivial = True
                 results = [("identity", bcols, brows)]
@@ -325,7 +326,6 @@ def _run(scn, log: EventLog, stats: Stats):
                 stats.probe("ordered-window-checked")
             if st["t"] == "order_rows" and st.get("limit") is not None and any(order_ok.values()):
                 stats.probe("limit-checked")
-            stats.state({"upto": upto, "alive": [b for b in BACKENDS if alive[b]]})
             if not any(alive.values()):
                 break
     finally:
